@@ -498,8 +498,14 @@ var fixedTemplates = []string{
 	"@(is_error(format_urn(contact.urn)))", "@(format_urn(\"tel:+250781234567\"))", "@CONTACT.URN", "@Contact.Urns", "@(CONTACT.urns[0])",
 }
 
+// templates whose value depends on the default country of the evaluation environment
+var countryTemplates = []string{
+	"@(has_phone(\"0788 123 123\"))", "@(has_phone(\"0788 123 123\").match)", "@(has_phone(\"call (206) 555-1212 now\").match)", "@(has_phone(\"0712 345 678\").match)",
+}
+
 func templatesFor(ctx *node, all bool) []string {
 	out := append([]string{}, fixedTemplates...)
+	out = append(out, countryTemplates...)
 	if ctx == nil {
 		return out
 	}
